@@ -1,9 +1,14 @@
 package main
 
 import (
+	"crypto/sha256"
+	"encoding/hex"
+	"encoding/json"
 	"fmt"
 	"go/token"
 	"go/types"
+	"os"
+	"path/filepath"
 	"sort"
 	"strings"
 
@@ -1201,4 +1206,85 @@ func sortedKeys(m map[string]string) []string {
 	}
 	sort.Strings(ks)
 	return ks
+}
+
+// ---------------------------------------------------------------------------
+// Trusted contracts of repository functions that have no verified counterpart (iterators, parameter accessors, a few
+// helpers) are assumptions about one particular body. The body each was written for is pinned by a fingerprint of its
+// SSA (instructions without source positions and debug references); when the body changes the assumption is void and
+// the check says so instead of going on trusting the old text. Pins: /verif/props/pins.json (bin/govc pins rewrites it).
+
+func bodyFingerprint(fn *ssa.Function) string {
+	var b strings.Builder
+	var dump func(f *ssa.Function)
+	dump = func(f *ssa.Function) {
+		fmt.Fprintf(&b, "func %d params %d results\n", len(f.Params), f.Signature.Results().Len())
+		for _, blk := range f.Blocks {
+			fmt.Fprintf(&b, "block %d\n", blk.Index)
+			for _, ins := range blk.Instrs {
+				if _, isDbg := ins.(*ssa.DebugRef); isDbg {
+					continue
+				}
+				s := ins.String()
+				if v, ok := ins.(ssa.Value); ok {
+					s = v.Name() + " = " + s
+				}
+				b.WriteString(s)
+				b.WriteString("\n")
+			}
+		}
+		for _, a := range f.AnonFuncs {
+			dump(a)
+		}
+	}
+	dump(fn)
+	h := sha256.Sum256([]byte(b.String()))
+	return hex.EncodeToString(h[:8])
+}
+
+// pinnedTrusted: the trusted, unverified repository contracts among `relied` with the fingerprints of their bodies
+func (w *Workspace) pinnedTrusted(keys []string) map[string]string {
+	out := map[string]string{}
+	for _, k := range keys {
+		ct := w.contracts[k]
+		if ct == nil || !ct.Trusted || ct.View != "" || ct.Refined != "" || ct.PkgPath == "" {
+			continue
+		}
+		if w.contracts[k+"@store"] != nil || w.contracts[k+"@text"] != nil {
+			continue
+		}
+		fn := w.funcs[k]
+		if fn == nil || len(fn.Blocks) == 0 {
+			continue // interface method or external declaration: nothing to pin
+		}
+		out[strings.TrimPrefix(k, modPath+"/")] = bodyFingerprint(fn)
+	}
+	return out
+}
+
+func (w *Workspace) structuralPins(prop string, relied []string) *FuncResult {
+	cur := w.pinnedTrusted(relied)
+	if len(cur) == 0 {
+		return nil
+	}
+	res := &FuncResult{Key: "trusted contracts of repository functions: the bodies they were written for"}
+	pins := map[string]string{}
+	if b, err := os.ReadFile(filepath.Join(w.verif, "props", "pins.json")); err == nil {
+		json.Unmarshal(b, &pins)
+	}
+	var ks []string
+	for k := range cur {
+		ks = append(ks, k)
+	}
+	sort.Strings(ks)
+	for _, k := range ks {
+		want, pinned := pins[k]
+		ok := pinned && want == cur[k]
+		why := fmt.Sprintf("the trusted contract of %s was written for another body (pinned %s, now %s): what it assumes about the function has to be re-established before anything is proved from it", k, want, cur[k])
+		if !pinned {
+			why = fmt.Sprintf("the trusted contract of %s has no pinned body (run `bin/govc pins` after reviewing the contract against the code)", k)
+		}
+		res.Obls = append(res.Obls, structural(k, "trusted_contract_matches_the_body_it_was_written_for", []string{prop}, ok, why))
+	}
+	return res
 }
